@@ -15,6 +15,16 @@
 //!  * reader side (WAL): while get_wallet_summary runs on one connection, the whole write
 //!    operation commits on another at a sampled reader step; the summary must equal the summary
 //!    of the pre-state or of the post-state, never a mixture.
+//!
+//! Pool-migration store (`c02_migration/mod.rs`): the same oracles over the operations of
+//! `pool_migration::orchard_ironwood::PoolMigrations` (persist / replace / per-transaction update /
+//! cancel / proved transaction / broadcast-failure report / mined promotion / one `advance_migration`
+//! step) and over the wallet's own truncations, rewinds, scans and account deletions on states that
+//! hold 0-2 persisted migrations; and the reader side for the migration oracles
+//! (`check_step_satisfiability`, `mined_height`, the state reads inside a caller-opened transaction).
+
+#[path = "c02_migration/mod.rs"]
+mod migration;
 
 use std::collections::BTreeMap;
 use std::path::{Path, PathBuf};
@@ -40,7 +50,19 @@ use zcash_client_backend::wallet::OutputRef;
 use zcash_client_sqlite::{util::testing::FixedClock, AccountUuid, WalletDb};
 use zcash_protocol::{consensus::BlockHeight, local_consensus::LocalNetwork, PoolType, ShieldedPool, TxId};
 
-type RawDb = WalletDb<Connection, LocalNetwork, FixedClock, ChaChaRng>;
+use migration::{MigEnv, MigOp, MigSpec};
+
+/// The wallet API over a connection the harness owns (so that the pool-migration store can be opened over the
+/// very same hooked connection, as an application does).
+type RawDb<'a> = WalletDb<&'a mut Connection, LocalNetwork, FixedClock, ChaChaRng>;
+
+fn wdb<'a>(conn: &'a mut Connection, world: &World) -> RawDb<'a> {
+    let mut db = WalletDb::from_connection(conn, world.net, migration::clock(), ChaChaRng::from_seed([9; 32]));
+    if let Some(n) = world.spec.retention_interval {
+        db.set_anchor_retention_interval(zcash_client_backend::data_api::anchor_retention::AnchorRetentionInterval::custom(std::num::NonZeroU32::new(n.max(1)).unwrap()));
+    }
+    db
+}
 
 #[derive(Clone, Debug)]
 enum WOp {
@@ -65,6 +87,8 @@ enum WOp {
     StoreDecrypted { mined: bool, n_out: u8, to_wallet: bool, salt: u8 },
     /// store_transactions_to_be_sent of a transparent-only transaction funded by an account
     StoreSent { acct: u8, n_out: u8, salt: u8 },
+    /// an operation on the SQLite pool-migration store
+    Mig(MigOp),
 }
 
 fn arb_wop() -> impl Strategy<Value = WOp> {
@@ -99,6 +123,21 @@ struct C02Case {
     pre_lock_aimed: bool,
     op: WOp,
     pos_sel: Vec<u32>,
+    mig: MigPart,
+}
+
+/// The pool-migration part of a case (empty for the sub-checks that predate it).
+#[derive(Clone, Debug, Default)]
+struct MigPart {
+    /// scan every gap of the history (in chunks of this many blocks) before the extra blocks are appended, so that
+    /// the wallet has a fully-scanned height right below them
+    scan_all: Option<u16>,
+    /// migrations persisted (in this order) before the operation; when two name the same account the first one is
+    /// made terminal, so that the account has history plus a pending record
+    migs: Vec<MigSpec>,
+    /// reader side: the transactions the oracle is asked about are those of this migration, built for this account
+    probe: Option<MigSpec>,
+    settle: u8,
 }
 
 fn arb_c02_case() -> impl Strategy<Value = C02Case> {
@@ -111,7 +150,7 @@ fn arb_c02_case() -> impl Strategy<Value = C02Case> {
             arb_wop(),
             proptest::collection::vec(any::<u32>(), 12),
         )
-            .prop_map(move |(extra_blocks, pre_lock, op, pos_sel)| C02Case { hist: hist.clone(), extra_blocks, pre_lock, pre_lock_aimed: false, op, pos_sel })
+            .prop_map(move |(extra_blocks, pre_lock, op, pos_sel)| C02Case { hist: hist.clone(), extra_blocks, pre_lock, pre_lock_aimed: false, op, pos_sel, mig: MigPart::default() })
     })
 }
 
@@ -122,6 +161,59 @@ fn arb_c02_lock_case() -> impl Strategy<Value = C02Case> {
         c.op = WOp::Lock { first, n, owner, for_blocks };
         c.pre_lock = Some((sel, owner, pre_for));
         c.pre_lock_aimed = true;
+        c
+    })
+}
+
+/// Operations for the states that hold persisted migrations: the store's own operations, and the wallet operations
+/// that must move the migration rows atomically with the rest (truncations and rewinds, account deletion, scans —
+/// whose result the migration oracles read).
+fn arb_mig_wop() -> impl Strategy<Value = WOp> {
+    prop_oneof![
+        36 => migration::arb_mig_op().prop_map(WOp::Mig),
+        5 => (0u8..12).prop_map(|depth| WOp::Truncate { depth }),
+        3 => (0u8..12).prop_map(|depth| WOp::TruncateToChainState { depth }),
+        4 => (0u8..12, 0u8..4).prop_map(|(depth, reset)| WOp::RewindToChainState { depth, reset }),
+        2 => (0u8..3).prop_map(|idx| WOp::DeleteAccount { idx }),
+        2 => (any::<u32>(), 1u8..20).prop_map(|(sel, len)| WOp::Scan { sel, len }),
+    ]
+}
+
+fn arb_mig_part(reader: bool) -> impl Strategy<Value = MigPart> {
+    (
+        proptest::option::weighted(0.75, 1u16..60),
+        prop_oneof![1 => Just(0usize), 5 => Just(1usize), 4 => Just(2usize)].prop_flat_map(|n| proptest::collection::vec(migration::arb_mig_spec(), n)),
+        migration::arb_mig_spec(),
+        0u8..4,
+    )
+        .prop_map(move |(scan_all, migs, probe, settle)| MigPart { scan_all, migs, probe: reader.then_some(probe), settle })
+}
+
+/// (state with 0-2 persisted migrations for 1-2 accounts, operation from `arb_mig_wop`)
+fn arb_c02_mig_case() -> impl Strategy<Value = C02Case> {
+    (arb_c02_case(), arb_mig_wop(), arb_mig_part(false)).prop_map(|(mut c, op, mig)| {
+        c.op = op;
+        c.mig = mig;
+        c
+    })
+}
+
+/// Reader side: the writer is mostly an operation that moves the chain view the oracles read (scan, truncation,
+/// rewind), sometimes a store operation.
+fn arb_c02_mig_reader_case() -> impl Strategy<Value = C02Case> {
+    let op = prop_oneof![
+        8 => (any::<u32>(), 1u8..20).prop_map(|(sel, len)| WOp::Scan { sel, len }),
+        6 => (0u8..10).prop_map(|depth| WOp::Truncate { depth }),
+        2 => (0u8..10).prop_map(|depth| WOp::TruncateToChainState { depth }),
+        3 => (0u8..10, 0u8..4).prop_map(|(depth, reset)| WOp::RewindToChainState { depth, reset }),
+        1 => (any::<u32>(), 0u8..3).prop_map(|(which, status)| WOp::SetTxStatus { which, status }),
+        // (no account deletion here: a store handle resolves its account row when it is created, so "handle created
+        // before the deletion, read after it" is not a snapshot by construction and nothing documents it as one)
+        6 => migration::arb_mig_op().prop_map(WOp::Mig),
+    ];
+    (arb_c02_case(), op, arb_mig_part(true)).prop_map(|(mut c, op, mig)| {
+        c.op = op;
+        c.mig = mig;
         c
     })
 }
@@ -137,6 +229,8 @@ struct OpCtx {
     txids: Vec<[u8; 32]>,
     max_scanned: Option<u32>,
     gaps: Vec<(u32, u32)>,
+    /// what generated migrations are built against (see `migration::MigEnv`)
+    menv: MigEnv,
 }
 
 fn shielded(pool: Pool) -> ShieldedPool {
@@ -152,10 +246,15 @@ fn out_ref(n: &(u8, Pool, [u8; 32], u32)) -> OutputRef {
 }
 
 /// Runs the operation; `Ok(summary)` / `Err(message)`. Deterministic in (db state, op, ctx).
-fn run_op(db: &mut RawDb, op: &WOp, c: &OpCtx) -> Result<String, String> {
+fn run_op(conn: &mut Connection, op: &WOp, c: &OpCtx) -> Result<String, String> {
     let tip = c.chain.tip_height();
     let base = c.chain.base_height;
+    if let WOp::Mig(m) = op {
+        return migration::run_mig_op(conn, m, &c.menv);
+    }
+    let db = &mut wdb(conn, &c.world);
     match op {
+        WOp::Mig(_) => unreachable!(),
         WOp::Scan { sel, len } => {
             if tip == base {
                 return Ok("nothing-to-scan".into());
@@ -363,15 +462,23 @@ struct Hooks {
     fired: Arc<AtomicBool>,
     changes_at_fault: Arc<AtomicU64>,
     commits: Arc<AtomicU64>,
+    /// commits of write transactions that had changed no row (`sqlite3_total_changes` unchanged since the previous
+    /// commit): e.g. an autocommit `UPDATE` that matched nothing. They leave the database exactly as it was.
+    empty_commits: Arc<AtomicU64>,
+    changes_at_last_commit: Arc<AtomicU64>,
     veto_commit: Arc<AtomicBool>,
     /// called at `snapshot_at` with the step number
     snapshot_at: Arc<AtomicU64>,
     snapshot: Arc<Mutex<Option<Box<dyn FnMut() + Send>>>>,
+    /// commits the connection had performed when the snapshot callback ran. SQLite delivers the progress callbacks
+    /// that fell due inside a statement's last straight-line opcodes only once the statement has halted, i.e. AFTER
+    /// an autocommit statement (or a COMMIT) has committed; such a snapshot must see the complete result instead.
+    commits_at_snapshot: Arc<AtomicU64>,
     /// called inside the commit hook (before the commit is durable)
     at_commit: Arc<Mutex<Option<Box<dyn FnMut() + Send>>>>,
 }
 
-fn open_hooked(path: &Path, world: &World, wal: bool) -> (RawDb, Hooks) {
+fn open_hooked(path: &Path, wal: bool) -> (Connection, Hooks) {
     let conn = Connection::open(path).expect("open copy");
     rusqlite::vtab::array::load_module(&conn).expect("array module");
     if wal {
@@ -387,6 +494,7 @@ fn open_hooked(path: &Path, world: &World, wal: bool) -> (RawDb, Hooks) {
             Some(move || {
                 let n = h.steps.fetch_add(1, Ordering::Relaxed) + 1;
                 if n == h.snapshot_at.load(Ordering::Relaxed) {
+                    h.commits_at_snapshot.store(h.commits.load(Ordering::Relaxed), Ordering::Relaxed);
                     if let Some(f) = h.snapshot.lock().unwrap().as_mut() {
                         f();
                     }
@@ -446,21 +554,22 @@ fn open_hooked(path: &Path, world: &World, wal: bool) -> (RawDb, Hooks) {
         let h = hooks.clone();
         conn.commit_hook(Some(move || {
             h.commits.fetch_add(1, Ordering::Relaxed);
+            let ch = unsafe { rusqlite::ffi::sqlite3_total_changes(raw as *mut rusqlite::ffi::sqlite3) } as u64;
+            if h.changes_at_last_commit.swap(ch, Ordering::Relaxed) == ch {
+                h.empty_commits.fetch_add(1, Ordering::Relaxed);
+            }
             if let Some(f) = h.at_commit.lock().unwrap().as_mut() {
                 f();
             }
             h.veto_commit.load(Ordering::Relaxed)
         }));
     }
-    let mut db = WalletDb::from_connection(conn, world.net, FixedClock::new(std::time::SystemTime::UNIX_EPOCH + std::time::Duration::from_secs(1_740_441_600)), ChaChaRng::from_seed([9; 32]));
-    if let Some(n) = world.spec.retention_interval {
-        db.set_anchor_retention_interval(zcash_client_backend::data_api::anchor_retention::AnchorRetentionInterval::custom(std::num::NonZeroU32::new(n.max(1)).unwrap()));
-    }
-    (db, hooks)
+    (conn, hooks)
 }
 
-/// Canonical dump. Two kinds of values are not a function of (state, operation) and are normalised:
-/// account UUIDs (drawn from the OS) and the row ids of `addresses` (gap addresses are generated in
+/// Canonical dump of every table (the eight `orchard_ironwood_migration*` tables included: `dump_db_mapped`
+/// walks `sqlite_schema`). Values that are not a function of (state, operation) are normalised:
+/// account UUIDs and pool-migration record UUIDs (drawn from the OS) and the row ids of `addresses` (gap addresses are generated in
 /// the iteration order of a `HashSet`, so their autoincrement ids — and references to them — vary
 /// between otherwise identical runs). An address row is identified by (account, scope, diversifier).
 fn canon_dump(path: &Path) -> Result<Dump, String> {
@@ -479,6 +588,8 @@ fn canon_dump_conn(conn: &Connection) -> Dump {
     }
     dump_db_mapped(conn, &|table, col, v| match (table, col) {
         ("accounts", "uuid") => "x'<uuid>'".to_string(),
+        // the record id of a pool migration is `Uuid::new_v4()` (OS randomness), minted when the record is first persisted
+        ("orchard_ironwood_migrations", "uuid") => "x'<uuid>'".to_string(),
         ("addresses", "id") => addr.get(&v).cloned().unwrap_or(v),
         (_, "address_id") => addr.get(&v).cloned().unwrap_or(v),
         _ => v,
@@ -543,6 +654,7 @@ fn op_kind(op: &WOp) -> &'static str {
         WOp::RewindToChainState { .. } => "op:rewind_to_chain_state",
         WOp::StoreDecrypted { .. } => "op:store_decrypted_tx",
         WOp::StoreSent { .. } => "op:store_transactions_to_be_sent",
+        WOp::Mig(m) => migration::mig_op_kind(m),
     }
 }
 
@@ -556,6 +668,12 @@ fn build_state(case: &C02Case) -> Result<Option<(Hist, OpCtx)>, Fail> {
         }
         if h.tainted().is_some() {
             return Ok(None); // known shardtree finding (C06): scans may fail with Conflict afterwards
+        }
+    }
+    if let Some(chunk) = case.mig.scan_all {
+        match h.scan_all(chunk) {
+            Err(f) if f.signature == SIG_TREE_CONFLICT || f.signature == SIG_STALE_SUBTREE_ROOT => return Ok(None),
+            r => r?,
         }
     }
     for b in &case.extra_blocks {
@@ -595,7 +713,57 @@ fn build_state(case: &C02Case) -> Result<Option<(Hist, OpCtx)>, Fail> {
             let _ = h.w.db().lock_outputs(&[out_ref(n)], LockOwner::new([owner + 1; 32]), BlockHeight::from_u32(tip + for_blocks as u32));
         }
     }
+    // ---- pool migrations persisted before the operation ---------------------------------------------
+    let n_acc = h.w.accounts.len();
+    let fully_scanned = h.w.tdb.db().block_fully_scanned().map_err(|e| Fail::new("harness-fully-scanned", format!("{e:?}")))?.map(|m| u32::from(m.block_height()));
+    let mut menv = MigEnv {
+        net: h.world.net,
+        tip: h.chain.tip_height(),
+        scanned: fully_scanned.unwrap_or(h.base()),
+        accounts: h.w.accounts.clone(),
+        mig_accounts: vec![],
+        orchard_nfs: (0..n_acc)
+            .map(|a| h.chain.notes.iter().filter(|n| n.pool == Pool::Orchard && n.who == Who::Wallet(a as u8) && h.chain.on_branch(n.block_id)).map(|n| n.nf).collect())
+            .collect(),
+        txids: {
+            let mut t: Vec<[u8; 32]> = h.chain.notes.iter().filter(|n| matches!(n.who, Who::Wallet(_)) && h.chain.on_branch(n.block_id)).map(|n| n.txid).collect();
+            t.sort();
+            t.dedup();
+            t
+        },
+        orchard_roots: (h.base()..=h.chain.tip_height()).map(|x| (x, h.chain.state_at(x).final_orchard_tree().root().to_bytes())).collect(),
+    };
+    for (i, spec) in case.mig.migs.iter().enumerate() {
+        let ai = spec.acct as usize % n_acc;
+        let mut spec = spec.clone();
+        if case.mig.migs[i + 1..].iter().any(|later| later.acct as usize % n_acc == ai) && !spec.stage.is_terminal() {
+            // `Complete` history is revisited by the wallet's truncation walk, the policy statuses are not
+            spec.stage = if spec.salt % 2 == 0 { migration::Stage::Complete } else { migration::Stage::Superseded };
+        }
+        let (state, locks) = migration::build_migration(&spec, &menv, ai);
+        {
+            use zcash_pool_migration::engine::PoolMigrationWrite;
+            let acct = h.w.accounts[ai];
+            let mut store = zcash_client_sqlite::pool_migration::orchard_ironwood::PoolMigrations::for_account(h.world.net, migration::clock(), h.w.tdb.conn_mut(), acct)
+                .map_err(|e| Fail::new("harness-migration-store", format!("{e:?}")))?;
+            store.replace_migration(&state).map_err(|e| Fail::new("harness-migration-persist", format!("persisting a generated migration failed: {e:?}\n{state:?}")))?;
+        }
+        // reserve one scanned Orchard note of the account under each lock-owner token the migration names, as the
+        // prover's `lock_spent_notes` does (a terminal persist / cancel must release exactly these)
+        let mine: Vec<(u8, Pool, [u8; 32], u32)> = notes.iter().filter(|n| n.0 as usize == ai && n.1 == Pool::Orchard).cloned().collect();
+        for (k, token) in locks.iter().enumerate() {
+            if !mine.is_empty() {
+                let n = &mine[(k + spec.salt as usize) % mine.len()];
+                let tip = h.chain.tip_height();
+                let _ = h.w.db().lock_outputs(&[out_ref(n)], LockOwner::new(*token), BlockHeight::from_u32(tip + 20 + k as u32));
+            }
+        }
+        if !menv.mig_accounts.contains(&ai) {
+            menv.mig_accounts.push(ai);
+        }
+    }
     let ctx = OpCtx {
+        menv,
         accounts: h.w.accounts.clone(),
         notes,
         txids: txids.into_iter().collect(),
@@ -647,10 +815,13 @@ fn run_case(ctx: &Ctx, case: &C02Case) -> CaseResult {
 
     // pre-state
     let d0 = canon_dump(&state_path).map_err(|e| Fail::new("harness-dump", e))?;
+    for t in migration::MIGRATION_TABLES {
+        vensure!(d0.contains_key(t), "harness-migration-table-missing", "the canonical dump has no table {t}");
+    }
 
     // ---- reference run -------------------------------------------------------------------------
     copy_db(&state_path, &p("ref"));
-    let (mut rdb, rh) = open_hooked(&p("ref"), &oc.world, false);
+    let (mut rdb, rh) = open_hooked(&p("ref"), false);
     // crash copy at the commit boundary
     {
         let src = p("ref");
@@ -660,6 +831,7 @@ fn run_case(ctx: &Ctx, case: &C02Case) -> CaseResult {
     let ref_res = catch(|| run_op(&mut rdb, &case.op, &oc)).map_err(|pn| Fail::new(format!("panic-in-operation:{kind}"), format!("{:?} panicked: {pn}", case.op)))?;
     let s = rh.steps.load(Ordering::Relaxed);
     let commits = rh.commits.load(Ordering::Relaxed);
+    let empty_commits = rh.empty_commits.load(Ordering::Relaxed);
     drop(rdb);
     let dr = canon_dump(&p("ref")).map_err(|e| Fail::new("harness-dump", e))?;
     let changed = changed_rows(&d0, &dr);
@@ -669,7 +841,8 @@ fn run_case(ctx: &Ctx, case: &C02Case) -> CaseResult {
             vensure!(changed == 0 || commits == 1, format!("changed-without-commit:{kind}"), "{:?} changed {changed} rows with {commits} commits", case.op);
         }
         Err(e) => {
-            vensure!(commits == 0, format!("commit-on-error:{kind}"), "{:?} failed ({e}) but committed {commits} time(s)", case.op);
+            // (a commit that changed no row — an autocommit statement that matched nothing — leaves the database as it was)
+            vensure!(commits == empty_commits, format!("commit-on-error:{kind}"), "{:?} failed ({e}) but committed {commits} time(s), {} of them with row changes", case.op, commits - empty_commits);
             vensure!(changed == 0, format!("error-changed-db:{kind}"), "{:?} failed ({e}) but changed the database: {}", case.op, diff_dump(&d0, &dr));
         }
     }
@@ -685,7 +858,7 @@ fn run_case(ctx: &Ctx, case: &C02Case) -> CaseResult {
     let mut veto_checked = 0u64;
     if ref_res.is_ok() && commits == 1 {
         copy_db(&state_path, &p("veto"));
-        let (mut vdb, vh) = open_hooked(&p("veto"), &oc.world, false);
+        let (mut vdb, vh) = open_hooked(&p("veto"), false);
         vh.veto_commit.store(true, Ordering::Relaxed);
         let r = catch(|| run_op(&mut vdb, &case.op, &oc)).map_err(|pn| Fail::new(format!("panic-on-commit-failure:{kind}"), format!("{:?} panicked when its commit failed: {pn}", case.op)))?;
         drop(vdb);
@@ -701,11 +874,12 @@ fn run_case(ctx: &Ctx, case: &C02Case) -> CaseResult {
     let mut swallowed = 0u64;
     let mut mid_write = 0u64;
     let mut snapshots = 0u64;
+    let mut snapshots_after_commit = 0u64;
     let mut snapshot_busy = 0u64;
     let pos = positions(s, &case.pos_sel, dense);
     for (pi, k) in pos.iter().enumerate() {
         copy_db(&state_path, &p("flt"));
-        let (mut fdb, fh) = open_hooked(&p("flt"), &oc.world, false);
+        let (mut fdb, fh) = open_hooked(&p("flt"), false);
         fh.fire_at.store(*k, Ordering::Relaxed);
         // writer-side snapshot a little before the fault, on every 4th position
         let snap_result: Arc<Mutex<Option<Result<Dump, String>>>> = Arc::new(Mutex::new(None));
@@ -743,7 +917,13 @@ fn run_case(ctx: &Ctx, case: &C02Case) -> CaseResult {
                 Ok(d) => {
                     snapshots += 1;
                     let d = normalise(d);
-                    vensure!(d == d0, format!("snapshot-sees-partial-state:{kind}"), "a second connection reading inside one transaction at writer step {}/{s} of {:?} saw a state that is not the pre-state: {}", k - 1, case.op, diff_dump(&d0, &d));
+                    if fh.commits_at_snapshot.load(Ordering::Relaxed) == 0 {
+                        vensure!(d == d0, format!("snapshot-sees-partial-state:{kind}"), "a second connection reading inside one transaction at writer step {}/{s} of {:?} (before any commit) saw a state that is not the pre-state: {}", k - 1, case.op, diff_dump(&d0, &d));
+                    } else if ref_res.is_ok() && commits == 1 {
+                        // the callback ran after the operation's one commit had completed (see `Hooks::commits_at_snapshot`)
+                        snapshots_after_commit += 1;
+                        vensure!(d == dr, format!("snapshot-after-commit-sees-partial-state:{kind}"), "a second connection reading inside one transaction after the commit of {:?} (writer step {}/{s}) saw a state that is not the complete result: {}", case.op, k - 1, diff_dump(&dr, &d));
+                    }
                 }
                 Err(_) => snapshot_busy += 1,
             }
@@ -786,8 +966,24 @@ fn run_case(ctx: &Ctx, case: &C02Case) -> CaseResult {
     }
 
     let nontrivial = changed >= 2 && mid_write > 0;
+    // generator health of the pool-migration part
+    let is_mig_table = |t: &str| migration::MIGRATION_TABLES.contains(&t);
+    let differs = |t: &String| d0.get(t) != dr.get(t);
+    let mig_rows_changed = d0.keys().filter(|t| is_mig_table(t)).any(differs);
+    let wallet_rows_changed = d0.keys().filter(|t| !is_mig_table(t)).any(differs);
+    let is_mig_op = matches!(case.op, WOp::Mig(_));
+    let n_migrations = d0.get("orchard_ironwood_migrations").map_or(0, |r| r.len());
+    let idle = matches!(&ref_res, Ok(m) if m == "no-pending-migration" || m == "no-transactions");
     Ok(Obs::new(nontrivial)
         .label(kind)
+        .label_if(is_mig_op && matches!(case.op, WOp::Mig(MigOp::Mutate { .. })), "op:mig.read-mutate-persist(any)")
+        .label_if(is_mig_op && idle, "mig-op-without-pending-migration")
+        .label_if(is_mig_op && mig_rows_changed, "mig-op-changes-migration-rows")
+        .label_if(is_mig_op && mig_rows_changed && wallet_rows_changed, "mig-op-changes-migration-and-wallet-tables")
+        .label_if(!is_mig_op && mig_rows_changed, "wallet-op-changes-migration-rows")
+        .label_if(!is_mig_op && mig_rows_changed && mid_write > 0, "wallet-op-changes-migration-rows+fault-between-writes")
+        .label_if(n_migrations == 1, "state:1-migration")
+        .label_if(n_migrations >= 2, "state:2-migrations")
         .label_if(ref_res.is_err(), "reference-errs")
         .label_if(changed >= 2, "multi-row-change")
         .label_if(mid_write > 0, "fault-between-writes")
@@ -797,6 +993,7 @@ fn run_case(ctx: &Ctx, case: &C02Case) -> CaseResult {
         .count("faulted-runs-failed", errs)
         .count("faults-after-first-write", mid_write)
         .count("snapshots-compared", snapshots)
+        .count("snapshots-after-commit", snapshots_after_commit)
         .count("snapshots-busy", snapshot_busy)
         .count("commit-vetoes", veto_checked)
         .count("crash-copies-recovered", crash_checked)
@@ -807,7 +1004,8 @@ fn run_case(ctx: &Ctx, case: &C02Case) -> CaseResult {
 // reader side: get_wallet_summary must be a snapshot while a write commits concurrently (WAL)
 // ------------------------------------------------------------------------------------------------
 
-fn summary_of(db: &RawDb) -> Result<String, String> {
+fn summary_of(conn: &Connection, world: &World) -> Result<String, String> {
+    let db = WalletDb::from_connection(conn, world.net, migration::clock(), ChaChaRng::from_seed([9; 32]));
     let s = db.get_wallet_summary(ConfirmationsPolicy::MIN).map_err(|e| format!("{e:?}"))?;
     Ok(match s {
         None => "none".to_string(),
@@ -854,14 +1052,14 @@ fn run_reader_case(case: &C02Case) -> CaseResult {
 
     // summaries of the pre-state and the post-state
     copy_db(&state_path, &p("rd0"));
-    let (db0, _h0) = open_hooked(&p("rd0"), &oc.world, true);
-    let s0 = summary_of(&db0).map_err(|e| Fail::new("summary-error", e))?;
+    let (db0, _h0) = open_hooked(&p("rd0"), true);
+    let s0 = summary_of(&db0, &oc.world).map_err(|e| Fail::new("summary-error", e))?;
     let steps_ref = _h0.steps.load(Ordering::Relaxed);
     drop(db0);
     copy_db(&state_path, &p("rd1"));
-    let (mut db1, _h1) = open_hooked(&p("rd1"), &oc.world, true);
+    let (mut db1, _h1) = open_hooked(&p("rd1"), true);
     let wres = run_op(&mut db1, &case.op, &oc);
-    let s1 = summary_of(&db1).map_err(|e| Fail::new("summary-error", e))?;
+    let s1 = summary_of(&db1, &oc.world).map_err(|e| Fail::new("summary-error", e))?;
     drop(db1);
     if wres.is_err() || s0 == s1 || steps_ref < 4 {
         return Ok(Obs::trivial().label("write-does-not-change-summary"));
@@ -877,8 +1075,8 @@ fn run_reader_case(case: &C02Case) -> CaseResult {
             let c = Connection::open(p("rd")).map_err(|e| Fail::new("harness-open", e.to_string()))?;
             c.pragma_update(None, "journal_mode", "WAL").map_err(|e| Fail::new("harness-wal", e.to_string()))?;
         }
-        let (reader, rh) = open_hooked(&p("rd"), &oc.world, true);
-        let (writer, _wh) = open_hooked(&p("rd"), &oc.world, true);
+        let (reader, rh) = open_hooked(&p("rd"), true);
+        let (writer, _wh) = open_hooked(&p("rd"), true);
         let writer = Arc::new(Mutex::new(Some(writer)));
         let wres: Arc<Mutex<Option<Result<String, String>>>> = Arc::new(Mutex::new(None));
         {
@@ -894,7 +1092,7 @@ fn run_reader_case(case: &C02Case) -> CaseResult {
                 }
             }));
         }
-        let got = summary_of(&reader);
+        let got = summary_of(&reader, &oc.world);
         let wr = wres.lock().unwrap().take();
         match (got, wr) {
             (Ok(g), Some(Ok(_))) => {
@@ -916,6 +1114,190 @@ fn run_reader_case(case: &C02Case) -> CaseResult {
     Ok(Obs::new(compared > 0).label(kind).count("reader-interleavings-compared", compared).count("reader-interleavings-busy", busy))
 }
 
+// ------------------------------------------------------------------------------------------------
+// reader side, migration oracles: check_step_satisfiability / mined_height (own read transaction) and the state
+// reads inside a caller-opened transaction must be snapshots while a write commits concurrently (WAL)
+// ------------------------------------------------------------------------------------------------
+
+#[derive(Clone, Copy, Debug, PartialEq, Eq)]
+enum When {
+    Never,
+    BeforeFirstRead,
+    AtReaderStep(u64),
+}
+
+struct MigReaderRun {
+    outcomes: Vec<migration::ReadOutcome>,
+    /// result of the write, if it ran
+    write: Option<Result<String, String>>,
+}
+
+fn mig_reader_run(state_path: &Path, work: &Path, oc: &Arc<OpCtx>, op: &WOp, plan: &migration::ReadPlan, when: When) -> Result<MigReaderRun, Fail> {
+    copy_db(state_path, work);
+    {
+        // switch the copy to WAL before the two handles open it
+        let c = Connection::open(work).map_err(|e| Fail::new("harness-open", e.to_string()))?;
+        c.pragma_update(None, "journal_mode", "WAL").map_err(|e| Fail::new("harness-wal", e.to_string()))?;
+    }
+    let (reader, rh) = open_hooked(work, true);
+    let (mut writer, _wh) = open_hooked(work, true);
+    let written = Arc::new(AtomicBool::new(false));
+    let wres: Arc<Mutex<Option<Result<String, String>>>> = Arc::new(Mutex::new(None));
+    match when {
+        When::Never => drop(writer),
+        When::BeforeFirstRead => {
+            let r = catch(|| run_op(&mut writer, op, oc)).unwrap_or_else(|p| Err(format!("panic: {p}")));
+            written.store(r.is_ok(), Ordering::SeqCst);
+            *wres.lock().unwrap() = Some(r);
+            drop(writer);
+        }
+        When::AtReaderStep(k) => {
+            let writer = Arc::new(Mutex::new(Some(writer)));
+            let (wres, oc, op, written) = (wres.clone(), oc.clone(), op.clone(), written.clone());
+            *rh.snapshot.lock().unwrap() = Some(Box::new(move || {
+                if let Some(mut wconn) = writer.lock().unwrap().take() {
+                    let r = catch(|| run_op(&mut wconn, &op, &oc)).unwrap_or_else(|p| Err(format!("panic: {p}")));
+                    written.store(r.is_ok(), Ordering::SeqCst);
+                    *wres.lock().unwrap() = Some(r);
+                }
+            }));
+            rh.steps.store(0, Ordering::Relaxed);
+            rh.snapshot_at.store(k, Ordering::Relaxed);
+        }
+    }
+    // (reader steps are counted from the first read on)
+    if !matches!(when, When::AtReaderStep(_)) {
+        rh.steps.store(0, Ordering::Relaxed);
+    }
+    let steps = rh.steps.clone();
+    let outcomes = migration::run_reads(&reader, plan, &oc.menv, &written, &move || steps.load(Ordering::Relaxed));
+    rh.snapshot_at.store(0, Ordering::Relaxed);
+    *rh.snapshot.lock().unwrap() = None;
+    let write = wres.lock().unwrap().take();
+    Ok(MigReaderRun { outcomes, write })
+}
+
+fn run_mig_reader_case(case: &C02Case) -> CaseResult {
+    let Some((h, mut oc)) = build_state(case)? else {
+        return Ok(Obs::trivial().label("excluded-known:stale-annotation-after-reorg"));
+    };
+    let Hist { world, chain, w, .. } = h;
+    oc.world = world;
+    oc.chain = chain;
+    let oc = Arc::new(oc);
+    let state_path = PathBuf::from(w.conn().path().expect("file-backed wallet").to_string());
+    let dir = state_path.parent().unwrap().to_path_buf();
+    let stem = state_path.file_name().unwrap().to_string_lossy().to_string();
+    let work = dir.join(format!("{stem}.mrd"));
+    let _cleanup = TempFiles(vec![work.clone()]);
+    let kind = op_kind(&case.op);
+
+    // what the oracle is asked: the transactions of a migration generated for an account that (mostly) has one
+    let probe = case.mig.probe.as_ref().expect("reader case carries a probe migration");
+    let ai = oc.menv.account_index(probe.salt);
+    let (pstate, _) = migration::build_migration(probe, &oc.menv, ai);
+    let probes: Vec<_> = pstate.transactions().iter().take(4).cloned().collect();
+    let txids: Vec<[u8; 32]> = probes.iter().take(3).map(|t| *t.txid().as_ref()).collect();
+    let plan = migration::ReadPlan { acct: ai, probes, txids, settle: case.mig.settle as u32 };
+    let call_kind = |i: usize| {
+        if i < plan.probes.len() {
+            "check_step_satisfiability"
+        } else if i < plan.probes.len() + plan.txids.len() {
+            "mined_height"
+        } else {
+            "state-reads-in-caller-transaction"
+        }
+    };
+
+    // the two references: every read before the write / every read after it
+    let pre = mig_reader_run(&state_path, &work, &oc, &case.op, &plan, When::Never)?;
+    let post = mig_reader_run(&state_path, &work, &oc, &case.op, &plan, When::BeforeFirstRead)?;
+    if !matches!(post.write, Some(Ok(_))) {
+        return Ok(Obs::trivial().label("write-fails"));
+    }
+    vensure!(pre.outcomes.len() == post.outcomes.len() && pre.outcomes.len() == plan.probes.len() + plan.txids.len() + 1, "harness-reader-shape", "reader made {} / {} calls", pre.outcomes.len(), post.outcomes.len());
+    let differing: Vec<usize> = (0..pre.outcomes.len()).filter(|i| pre.outcomes[*i].value != post.outcomes[*i].value).collect();
+    if differing.is_empty() {
+        return Ok(Obs::trivial().label("write-does-not-change-oracle-answers").label(kind));
+    }
+    // reader steps inside the calls whose answer the write changes
+    let mut pos = std::collections::BTreeSet::new();
+    for (n, i) in differing.iter().enumerate() {
+        let (s0, s1) = pre.outcomes[*i].step_range;
+        let len = s1.saturating_sub(s0);
+        if len == 0 {
+            continue;
+        }
+        let sel = case.pos_sel[(2 * n) % case.pos_sel.len()..].iter().take(2);
+        if len <= 14 {
+            pos.extend(s0 + 1..=s1);
+        } else {
+            for k in 1..=3 {
+                pos.insert(s0 + k);
+                pos.insert(s1 + 1 - k);
+            }
+            for j in 1..=8 {
+                pos.insert(s0 + (len * j / 9).max(1));
+            }
+            for x in sel {
+                pos.insert(s0 + 1 + ((*x as u64 * len) >> 32));
+            }
+        }
+    }
+    let pos: Vec<u64> = pos.into_iter().take(44).collect();
+
+    let (mut compared, mut busy, mut calls_checked) = (0u64, 0u64, 0u64);
+    for k in pos {
+        let run = mig_reader_run(&state_path, &work, &oc, &case.op, &plan, When::AtReaderStep(k))?;
+        match &run.write {
+            Some(Ok(_)) => {}
+            Some(Err(_)) => {
+                busy += 1;
+                continue;
+            }
+            None => {} // the reads ended before step k: every answer must be the pre-state answer (checked below)
+        }
+        vensure!(run.outcomes.len() == pre.outcomes.len(), "harness-reader-shape", "interleaved reader made {} calls, reference {}", run.outcomes.len(), pre.outcomes.len());
+        for (i, o) in run.outcomes.iter().enumerate() {
+            let (a, b) = (&pre.outcomes[i].value, &post.outcomes[i].value);
+            calls_checked += 1;
+            if !o.write_after {
+                vensure!(o.value == *a, format!("migration-oracle-nondeterministic:{}", call_kind(i)), "{} call #{i} before the concurrent write returned {} but {} on the untouched pre-state", call_kind(i), o.value, a);
+            } else if o.write_before {
+                vensure!(
+                    o.value == *b,
+                    format!("migration-oracle-after-write-differs:{}:{kind}", call_kind(i)),
+                    "{} call #{i} started after {:?} had committed on another connection and returned {}, but the same call after the same write returns {b}",
+                    call_kind(i),
+                    case.op,
+                    o.value
+                );
+            } else {
+                vensure!(
+                    o.value == *a || o.value == *b,
+                    format!("migration-oracle-mixes-states:{}:{kind}", call_kind(i)),
+                    "{} (call #{i}, account #{ai}), with {:?} committing on another connection at reader step {k}, returned {} which is neither the answer entirely before the write ({a}) nor the answer entirely after it ({b})",
+                    call_kind(i),
+                    case.op,
+                    o.value
+                );
+                if a != b {
+                    compared += 1;
+                }
+            }
+        }
+    }
+    let d = |k: &str| differing.iter().any(|i| call_kind(*i) == k);
+    Ok(Obs::new(compared > 0)
+        .label(kind)
+        .label_if(d("check_step_satisfiability"), "write-changes:check_step_satisfiability")
+        .label_if(d("mined_height"), "write-changes:mined_height")
+        .label_if(d("state-reads-in-caller-transaction"), "write-changes:migration-state-reads")
+        .count("reader-interleavings-compared", compared)
+        .count("reader-interleavings-busy", busy)
+        .count("oracle-calls-checked", calls_checked))
+}
+
 fn main() {
     chainsim::init_sqlite();
     let ctx = Ctx::from_args("C02", "fault_enumeration");
@@ -930,19 +1312,35 @@ fn main() {
     ctx.assume("SQLITE_INTERRUPT injected through the progress handler stands for any statement-level failure; torn pages / fsync ordering inside SQLite's commit are SQLite's contract and are not simulated");
     ctx.assume("account UUIDs (OS randomness) are normalised in dumps; everything else is deterministic (FixedClock, seeded ChaCha)");
     let tier = ctx.tier;
-    {
+    // debugging aid (mutant calibration): VERIF_C02_ONLY=sub1,sub2 runs only those sub-checks
+    let only: Option<Vec<String>> = std::env::var("VERIF_C02_ONLY").ok().map(|v| v.split(',').map(|x| x.trim().to_string()).collect());
+    let want = |sub: &str| only.as_ref().map_or(true, |o| o.iter().any(|x| x == sub));
+    if let Some(o) = &only {
+        println!("NOTE: VERIF_C02_ONLY is set: only the sub-checks {o:?} run; this is NOT a full C02 run");
+    }
+    if want("fault-enumeration") {
         let c2 = ctx.clone();
         ctx.run_prop_with("fault-enumeration", arb_c02_case, tier.pick(128, 3_000), 20, move |c| run_case(&c2, c));
+        ctx.require_min_count("fault-enumeration", "op:put_blocks", 6);
+        ctx.require_min_count("fault-enumeration", "faults-after-first-write", 200);
     }
-    ctx.require_min_count("fault-enumeration", "op:put_blocks", 6);
-    ctx.require_min_count("fault-enumeration", "faults-after-first-write", 200);
-    {
+    if want("lock-batch-conflict") {
         let c3 = ctx.clone();
         ctx.run_prop_with("lock-batch-conflict", arb_c02_lock_case, tier.pick(64, 1_000), 20, move |c| run_case(&c3, c));
+        ctx.require_min_count("lock-batch-conflict", "reference-errs", 8);
     }
-    ctx.require_min_count("lock-batch-conflict", "reference-errs", 8);
-    ctx.run_prop_with("reader-snapshot", arb_c02_case, tier.pick(96, 2_000), 20, run_reader_case);
-    ctx.require_min_count("reader-snapshot", "reader-interleavings-compared", 30);
+    if want("reader-snapshot") {
+        ctx.run_prop_with("reader-snapshot", arb_c02_case, tier.pick(96, 2_000), 20, run_reader_case);
+        ctx.require_min_count("reader-snapshot", "reader-interleavings-compared", 30);
+    }
+    // ---- pool-migration store ----------------------------------------------------------------------------------
+    if want("migration-fault-enumeration") {
+        let c4 = ctx.clone();
+        ctx.run_prop_with("migration-fault-enumeration", arb_c02_mig_case, tier.pick(192, 3_000), 20, move |c| run_case(&c4, c));
+    }
+    if want("reader-snapshot-migration") {
+        ctx.run_prop_with("reader-snapshot-migration", arb_c02_mig_reader_case, tier.pick(128, 2_000), 20, run_mig_reader_case);
+    }
     // evidence: totals across op kinds
     ctx.finish();
 }
